@@ -64,6 +64,56 @@ theorem bullet_keeps_text_full_fails :
     errorOk [32, 10, 120] = true ∧ bullet [32, 10, 120] = [42, 32, 32, 32, 120, 10] := by
   decide
 
+/-- Line structure of the whole report, for a one-line message and errors whose only line
+breaks are `\n` and whose first line is visible: the `\n`-separated lines of the output are
+the headline `message:`, then per error the line `* <first line>` followed by its
+continuation lines (indented by two spaces unless blank), and a final empty string (the
+report ends with a newline). -/
+theorem report_lines_partial (m : Text) (es : List Text) (hm : 10 ∉ m)
+    (hes : ∀ e ∈ es, OnlyNlBreaks e ∧ ∀ l0 ls, splitOn 10 e = l0 :: ls → hasNonSpace l0 = true) :
+    splitOn 10 (body m es) = (m ++ [58]) :: (es.flatMap bulletLines ++ [[]]) := by
+  have h1 : body m es = (m ++ [58]) ++ 10 :: (es.map bullet).flatten := by simp [body]
+  rw [h1, splitOn_append_sep, splitOn_not_mem 10 _ (by simp [hm]),
+    splitOn_bullets es bulletLines (fun e he => bullet_lines e (hes e he).1 (hes e he).2)]
+  rfl
+
+/-- A continuation line never looks like a bullet. -/
+theorem ind_not_bullet (l : Text) : (ind l).head? ≠ some 42 := by
+  unfold ind
+  split
+  · simp
+  · next h =>
+    cases l with
+    | nil => simp
+    | cons c cs =>
+      simp only [List.head?_cons, ne_eq, Option.some.injEq]
+      intro hc
+      subst hc
+      simp [hasNonSpace, isSpace] at h
+
+/-- The number of bullet lines (lines starting with `*`) among the lines of one error's
+entry is exactly one: the entry cannot fake a second bullet. -/
+theorem one_bullet_per_error (e : Text) :
+    ((bulletLines e).filter (fun l => l.head? == some 42)).length = 1 := by
+  unfold bulletLines
+  cases hs : splitOn 10 e with
+  | nil => exact absurd hs (splitOn_ne_nil 10 e)
+  | cons l0 ls =>
+    simp only [List.cons_append, List.filter_cons, List.head?_cons, beq_self_eq_true, if_true,
+      List.length_cons]
+    have : (ls.map ind).filter (fun l => l.head? == some 42) = [] := by
+      rw [List.filter_eq_nil_iff]
+      intro l hl
+      obtain ⟨x, _, hx⟩ := List.mem_map.mp hl
+      subst hx
+      simpa using ind_not_bullet x
+    simp [this]
+
+/-- Non-vacuity of `report_lines_partial`: a nested located error as `error_message` renders it. -/
+example : splitOn 10 (body (Text.ofString "Failed") [Text.ofString "At line 1: a\n  At line 2: b"])
+    = [Text.ofString "Failed:", Text.ofString "* At line 1: a", Text.ofString "    At line 2: b", []] := by
+  decide
+
 /-- Non-vacuity of `bullet_shape_partial`. -/
 example : firstLineVisible (Text.ofString "At line 3 and column 5: x\ny") = true := by decide
 
